@@ -359,7 +359,10 @@ func (t *vtree) extend(rng *rand.Rand, parent *vblk, n int, ct vcontent, fixedOf
 }
 
 // corrupt makes an invalid sibling of a valid block by altering exactly one commitment or body element
-func (t *vtree) corrupt(rng *rand.Rand, v *vblk) *vblk {
+func (t *vtree) corrupt(rng *rand.Rand, v *vblk) *vblk { return t.corruptKind(rng, v, "") }
+
+// corruptKind: the same with the kind of alteration chosen by the caller ("" = any)
+func (t *vtree) corruptKind(rng *rand.Rand, v *vblk, want string) *vblk {
 	h := types.CopyHeader(v.b.Header())
 	txs := v.b.Transactions()
 	uncles := v.b.Uncles()
@@ -372,6 +375,9 @@ func (t *vtree) corrupt(rng *rand.Rand, v *vblk) *vblk {
 	}
 	kinds = append(kinds, "adduncle")
 	kind := kinds[rng.Intn(len(kinds))]
+	if want != "" {
+		kind = want
+	}
 	flip := func(x common.Hash) common.Hash { x[rng.Intn(32)] ^= byte(1 << uint(rng.Intn(8))); return x }
 	switch kind {
 	case "root":
